@@ -173,6 +173,18 @@ def run_c14_ab(case):
             fp2, st2 = run_twin(split, case['seed'], content=True)
             what = f'simulate({total}) and simulate{tuple(plan)}'
             clause = 'C14.b'
+            if case.get('all_cuts'):
+                # thorough tier: every single split point of the quarter grid, not only the sampled ones
+                for k in range(1, int(total * 4)):
+                    c = k * 0.25
+                    fpk, stk = run_twin(dict(spec, plan=[c, total - c]), case['seed'], content=True)
+                    stats['reach']['grid_split_points'] = stats['reach'].get('grid_split_points', 0) + 1
+                    d = first_diff(fp1, fpk)
+                    if d:
+                        v = Violation(clause, f'simulate({total}) and simulate({c}, {total - c}) differ: {d}',
+                                      extra={'kind': mode})
+                        v.stats = stats
+                        raise v
     except (HarnessError, core.RunTimeout, Violation):
         raise
     except core.StepCap as e:
@@ -195,7 +207,7 @@ def run_c14_ab(case):
     return stats, core.digest([fp1['now'], fp1['data'].get('received_part', {})])
 
 
-def gen_c14_ab(rng):
+def gen_c14_ab(rng, all_cuts=False):
     spec = specmod.gen_spec(rng, 'c14')
     mode = rng.choice(('offset', 'offset', 'repeat', 'split', 'split', 'split'))
     spec['default_rm'] = rng.random() < 0.5
@@ -212,6 +224,8 @@ def gen_c14_ab(rng):
         spec['plan'] = [total]
         grid = [x * 0.25 for x in range(0, int(total * 4) + 1)]
         case['cuts'] = sorted(rng.sample(grid, rng.choice((1, 1, 2, 3))))
+        if all_cuts:
+            case['all_cuts'] = True
     return case
 
 
@@ -807,7 +821,7 @@ def _observe_late(lib, case, late):
             shift = 0
         s = made.get('s')
         obs['times'] = [t - shift for t in s.data.get('time', [])] if s is not None else None
-        obs['n'] = len(s.data[s.probes[0]]) if s is not None else None
+        obs['n'] = len([k for k in s.data if not isinstance(k, str)]) if s is not None else None
     elif sc == 'osensor':
         src = lib.Source('osrc', cycle_time=p['ct'])
         proc = lib.PartProcessor('oproc', [src], cycle_time=p['ct'])
